@@ -283,7 +283,8 @@ func init() {
 	register(&Plan{
 		Prop:  "C14",
 		Level: "exploration",
-		Rule: "the complete matrix {105 call sites (one with an attribute named caller; 3 of them printf verbs with %w / several verbs / none; 3 in files whose names hold quotation marks, backslashes or letters outside ASCII; 17 at chosen line numbers 1, 9|10|11, 99|100|101 ... 65535|65536, 10^6 through //line directives; the line-number flag is cleared for every third cell): 30 native verbs/Context verbs/LogAttrs/Logit/Log/printf verbs, 24 package-level functions, 5 Println forms whose first argument is not a string (native and package-level), 6 application-side facades whose type/package names collide with library or std names (applog.(*Logger).Infof/Warnf/Println over the std log bridge, a facade package named slog with a type Entry and a method logContext over the native API; the record is attributed skip minus facade depth frames above the call statement), 5 sites that also log an error carrying its own stack trace (errors.v3), 6 log/slog adapter forms (Logger.Info/WarnContext/Log/LogAttrs, With(..).Info, slog.Info after SetDefault), 4 std log bridge forms (Print/Printf/Println/Output)} x {json, logfmt, color} x {skip 0..4 set by WithSkip or SetSkip, with a wrapper chain of matching depth} x " +
+		Variants: []string{"verbose"},
+		Rule: "the complete matrix {109 call sites (4 of them the Verbose entry points, which print only in a build of the library with its tag verbose: their 216 cells are run by a build variant of the workload; one with an attribute named caller; 3 of them printf verbs with %w / several verbs / none; 3 in files whose names hold quotation marks, backslashes or letters outside ASCII; 17 at chosen line numbers 1, 9|10|11, 99|100|101 ... 65535|65536, 10^6 through //line directives; the line-number flag is cleared for every third cell): 30 native verbs/Context verbs/LogAttrs/Logit/Log/printf verbs, 24 package-level functions, 5 Println forms whose first argument is not a string (native and package-level), 6 application-side facades whose type/package names collide with library or std names (applog.(*Logger).Infof/Warnf/Println over the std log bridge, a facade package named slog with a type Entry and a method logContext over the native API; the record is attributed skip minus facade depth frames above the call statement), 5 sites that also log an error carrying its own stack trace (errors.v3), 6 log/slog adapter forms (Logger.Info/WarnContext/Log/LogAttrs, With(..).Info, slog.Info after SetDefault), 4 std log bridge forms (Print/Printf/Println/Output)} x {json, logfmt, color} x {skip 0..4 set by WithSkip or SetSkip, with a wrapper chain of matching depth} x " +
 			"{root held as Logger interface, root as *Entry, child | default logger for package functions} x {inlinable, noinline wrappers; direct chains and closure chains}. Each call site is a one-line function literal that also records its own logical call stack (runtime.CallersFrames) and is executed TWICE in a row (a second record from the same statement must be attributed like the first); a WithSkip child is used only after a sibling with another skip count was derived from the same parent; " +
 			"the caller decoded from the record (file made absolute, line, function) must equal the frame `skip` logical frames above the call statement. conc: 2-16 goroutines log 300-1500 records each at the same time, each from a function of its own; every record names the function of its own call site. thorough additionally builds the workload with -gcflags=all=-l. non-trivial = confirmed attribution; distinct = by cell Every cell issues its record three times: as is, after WithSkip(n) was evaluated again for the same count, and through a child derived from the logger that carries the skip count (attributed to the statement itself: a skip count is not inherited); every 50th cell first issues records from 320 other call sites.",
 		Assumptions: []string{"runtime.CallersFrames over a 16-slot Callers buffer gives the true logical stack at the call site", "privacy path flags are off so that the reported file can be compared (C18 covers them)"},
@@ -292,6 +293,8 @@ func init() {
 		NoInline: true,
 		Jobs: func(tier string, seed int64) []Job {
 			js := chunk("sites", "prod", 6894, 431, Job{Timeout: 20 * time.Minute})
+			// the four Verbose entry points exist only in a build with the library's tag "verbose": their 216 cells
+			js = append(js, Job{Sub: "sites", Mode: "prod", From: 6894, To: 7110, Variant: "verbose", Timeout: 20 * time.Minute})
 			js = append(js, chunk("conc", "prod", pick(tier, 8, 60), pick(tier, 2, 6), Job{Timeout: 20 * time.Minute})...)
 			if tier == "thorough" {
 				js = append(js, chunk("sites", "prod", 6894, 431, Job{NoInl: true, Args: []string{"-x", "build=noinline"}, Timeout: 20 * time.Minute})...)
